@@ -1,6 +1,8 @@
 """C16 - Finite tensors never quantize to NaN/Inf, whatever their range (DESIGN.md section 6, C16)."""
 from fractions import Fraction
 
+import os
+
 import torch
 
 from . import wq
@@ -28,6 +30,13 @@ def cases(tier, seed):
     for dt in ("float16", "bfloat16"):
         for a in wq.QT8:
             out.append(dict(kind="calib", dtype=dt, act=a))
+    # one process, several dtypes one after the other (the default optimizers are process-wide singletons)
+    for q in wq.QT8 + wq.QTB:
+        out.append(dict(kind="dtype-sequence", qtype=q))
+    # calibrated scales keep the C01/C03 bounds for every magnitude of the calibration batch (RERR)
+    for dt in ("float16", "bfloat16", "float32"):
+        for a in wq.QT8:
+            out.append(dict(kind="calib-scale-range", dtype=dt, act=a))
     return out
 
 
@@ -74,7 +83,7 @@ def run_case(case, res):
 
     from optimum.quanto import Calibration, freeze, quantize, quantize_weight
 
-    dt = api.DT[case["dtype"]]
+    dt = api.DT[case["dtype"]] if "dtype" in case else None
     fin = lambda e: z3.Not(z3.Or(z3.fpIsNaN(e), z3.fpIsInf(e)))  # noqa
     cap = 120
 
@@ -179,6 +188,68 @@ def run_case(case, res):
                 res.candidate(("region-witness:zero-scale-float8" if known else "zero-layer"), "BIT", dict(kind="zero-layer", module=case["module"], x=api.enc_tensor(api.tensor_from_values(xv, tuple(x.shape), dt)), bias=api.enc_tensor(api.tensor_from_values(bv, (2,), dt)), qtype=case["qtype"], frozen=frozen), exact=(not known and not m.opaque_ops))
         return
 
+    if case["kind"] == "dtype-sequence":
+        q_t = wq.qt(case["qtype"])
+        orders = [("float32", "float16"), ("float16", "float32"), ("float32", "bfloat16"), ("bfloat16", "float16")]
+        for first, second in orders:
+            d1, d2 = api.DT[first], api.DT[second]
+            w1 = torch.tensor([[0.3, -0.2], [0.11, 0.4]], dtype=d1)
+            w2 = torch.tensor([[0.3, -0.2], [0.11, 0.4]], dtype=d2)
+            with Session(res) as m:
+                quantize_weight(w1, q_t, 0).dequantize()  # warm-up in another dtype, concrete
+                W = m.symbolic(w2, "w")
+                q = quantize_weight(w2, q_t, 0)
+                D = m.read(q.dequantize())
+                SC = m.read(q._scale).reshape(-1)
+            b = bit.Bit(m.ctx)
+            pre = [fin(b.tr(x)) for x in W.reshape(-1)]
+            # an all-zero row must dequantize to zeros, whatever was quantized before in this process
+            zero_row = [z3.fpIsZero(b.tr(W[0, 0])), z3.fpIsZero(b.tr(W[0, 1]))]
+            bad = z3.Or(*[z3.Not(z3.fpIsZero(b.tr(D[0, k]))) for k in range(2)])
+            v, secs, mdl = api.solve(pre + zero_row + [bad], cap)
+            res.query("zero-row-stays-zero-after-other-dtypes", "BIT", v, secs, sub=f"{first} then {second}")
+            if v == "sat":
+                res.candidate("dtype-sequence", "BIT", dict(kind="dtype-sequence", qtype=case["qtype"], first=first, second=second, w=api.enc_tensor(api.tensor_from_values(api.model_values(b, mdl, W), (2, 2), d2))), exact=True)
+            # and the scale of a non-zero row is the one a fresh process computes (term identity with a second, direct run)
+            with Session(res) as m2:
+                W2 = m2.symbolic(w2, "w")
+                q2 = quantize_weight(w2, q_t, 0)
+                SC2 = m2.read(q2._scale).reshape(-1)
+            same = all(a_.pretty(12) == b_.pretty(12) for a_, b_ in zip(SC, SC2))
+            res.query("scale-independent-of-earlier-calls", "ALG", "unsat" if same else "sat", 0.0, sub=f"{first} then {second}")
+            if not same:
+                res.candidate("dtype-sequence", "ALG", dict(kind="dtype-sequence", qtype=case["qtype"], first=first, second=second, w=api.enc_tensor(torch.tensor([[0.0, 0.0], [1e-6, 2e-6]], dtype=d2))), exact=False)
+                res.candidate("dtype-sequence", "ALG", dict(kind="dtype-sequence", qtype=case["qtype"], first=first, second=second, w=api.enc_tensor(w2)), exact=False)
+        return
+
+    if case["kind"] == "calib-scale-range":
+        from fractions import Fraction
+
+        from symt import rerr
+        from optimum.quanto import absmax_scale
+
+        a_t = wq.qt(case["act"])
+        qm = float(torch.finfo(a_t.dtype).max) if a_t.is_floating_point else 127.0
+        f = tm.FMT[dt]
+        u, eta = Fraction(1, 2 ** f["p"]), Fraction(2) ** (f["emin"] - f["p"])
+        x = torch.tensor([0.3, -0.7, 0.2], dtype=dt)
+        with Session(res) as m:
+            X = m.symbolic(x, "x")
+            S = m.read(absmax_scale(x, a_t)).reshape(-1)[0]
+        for imax in range(3):
+            for sgn in (1, -1):
+                r = rerr.Rerr(m.ctx)
+                xs = [r.tr(t) for t in X]
+                sr = r.tr(S)
+                am = xs[imax] if sgn > 0 else -xs[imax]
+                reg = [am >= 0] + [z for k in range(3) if k != imax for z in (xs[k] <= am, -xs[k] <= am)]
+                v, secs, mdl = api.solve(r.cons + reg + [sr > am / rerr.rv(qm) * (1 + rerr.rv(3 * u)) + rerr.rv(2 * eta)], 60)
+                res.query("calibration-scale-not-larger-than-absmax/qmax", "RERR", v, secs, sub=f"max=elem{imax} sign{sgn}")
+                if v == "sat":
+                    xv = api.tensor_from_values(api.real_model_values(r, mdl, X, dt), (3,), dt)
+                    res.candidate("calib-scale-range", "RERR", dict(kind="calib-scale-range", act=case["act"], x=api.enc_tensor(xv)))
+        return
+
     if case["kind"] == "calib":
         a_t = wq.qt(case["act"])
         cap = 60 if a_t.is_floating_point else 120  # the float8 activation queries rarely finish: reported as inconclusive
@@ -228,6 +299,37 @@ def replay(rec):
         regions = {p[1] for p in probs}
         key = None if (not probs or None in regions) else sorted("C16/" + r for r in regions)
         return bool(probs), "\n".join(p[0] for p in probs[:4]) or "finite", key
+    if inp["kind"] == "dtype-sequence":
+        from optimum.quanto import quantize_weight
+
+        q_t = wq.qt(inp["qtype"])
+        w = api.dec_tensor(inp["w"])
+        # reference: the same call in a fresh process, without the warm-up in another dtype
+        import subprocess
+        import sys as _sys
+        import json as _json
+
+        code = "import sys, json, torch; sys.path.insert(0, %r); from symt import api; from checks import wq; from optimum.quanto import quantize_weight; inp = json.load(open(%r))['inputs']; w = api.dec_tensor(inp['w']); print(json.dumps(quantize_weight(w, wq.qt(inp['qtype']), 0).dequantize().double().tolist()))" % (os.path.dirname(os.path.dirname(os.path.abspath(__file__))), _sys.argv[1])
+        fresh = _json.loads(subprocess.run([_sys.executable, "-c", code], capture_output=True, text=True).stdout.strip().splitlines()[-1])
+        w1 = torch.tensor([[0.3, -0.2], [0.11, 0.4]], dtype=api.DT[inp["first"]])
+        quantize_weight(w1, q_t, 0).dequantize()
+        d = quantize_weight(w, q_t, 0).dequantize().double()
+        f_ = torch.tensor(fresh, dtype=torch.float64)
+        bad = not torch.equal(torch.nan_to_num(d, nan=1.2345e9), torch.nan_to_num(f_, nan=1.2345e9))
+        return bad, f"quantize_weight({w.tolist()}, {inp['qtype']}) after quantizing a {inp['first']} tensor gives {d.tolist()}, in a fresh process {fresh}", None
+    if inp["kind"] == "calib-scale-range":
+        from fractions import Fraction
+
+        from optimum.quanto import absmax_scale
+
+        x = api.dec_tensor(inp["x"])
+        a_t = wq.qt(inp["act"])
+        qm = float(torch.finfo(a_t.dtype).max) if a_t.is_floating_point else 127.0
+        s = float(absmax_scale(x, a_t))
+        f_ = wq.fmt(x.dtype)
+        am = float(x.double().abs().max())
+        bad = Fraction(s) > Fraction(am) / Fraction(qm) * (1 + Fraction(4, 2 ** f_["p"])) + Fraction(2) ** (f_["emin"] - f_["p"] + 2)
+        return bool(bad), f"absmax_scale({x.tolist()}, {inp['act']}) = {s} but absmax/qmax = {am/qm}", None
     if inp["kind"] == "zero-layer":
         x, bias = api.dec_tensor(inp["x"]), api.dec_tensor(inp["bias"])
         q_t = wq.qt(inp["qtype"])
